@@ -2,7 +2,7 @@
 import ast
 
 from .common import (ctx, family, tests_on, returns, const_bool, calls_in_ctx, reach_from_succ, self_attr, site,
-                     srcs_text, is_call_to, int_truthiness_uses)
+                     srcs_text, is_call_to, int_truthiness_uses, resolve_call)
 from ..flow import callee_attr
 from ..loader import AnalysisError, norm
 
@@ -340,11 +340,33 @@ def run(R):
             R.fail('C04.RET.1', inst, cx.qual, construct, 'reply ' + what, site(cx, construct if not isinstance(construct, str) else cx.f.node))
     else:
         R.ok('C04.RET.1', inst, site(cx, cx.f.node), f'{len(returns(cx))} return(s), no fall-through')
+    # the helpers reply() counts as "sent" really hand the packet to the face whenever they return normally
+    for s_ in sends:
+        for c in s_.calls():
+            if callee_attr(c) not in ('_put_raw_packet', '_put_raw_packet_with_pit_token', '_put_raw_packet_with_pit_token_nocopy'):
+                continue
+            hq = resolve_call(P, cx, c) or f'ndn.appv2.NDNApp.{callee_attr(c)}'
+            h = ctx(R, hq)
+            inst = f'{hq} :: returns normally only after face.send'
+            fs = [n for (n, c2) in calls_in_ctx(h, attr='send') if ast.unparse(c2.func.value).endswith('face')]
+            if not fs:
+                R.fail('C04.RET.1', inst, hq, 'def ' + h.f.node.name, 'the helper never hands the packet to the face', site(h, h.f.node))
+                continue
+            r = h.cfg.reachable(removed_nodes={n.id for n in fs}, follow_exc=False)
+            silent = [n for n in returns(h) if n.id in r] + ([h.cfg.falloff] if h.cfg.falloff.id in r else [])
+            if silent:
+                n0 = silent[0]
+                R.fail('C04.RET.1', inst, hq, n0.ast if n0.ast is not None else 'def ' + h.f.node.name, 'the helper can return without sending (e.g. face down) and '
+                       'without raising: reply() then reports True although nothing was transmitted', site(h, n0.ast if n0.ast is not None else h.f.node))
+            else:
+                R.ok('C04.RET.1', inst, site(h, fs[0].ast), 'every normal exit follows face.send; otherwise NetworkError')
     # ---------------------------------------------------------------- C04.NUL.1 lifetime 0 is a lifetime, not "absent"
     R.ob('C04.NUL.1', 'the Interest lifetime (optional integer) is tested with `is None`, never by truthiness, when the reply deadline is computed')
     n_uses = 0
-    for cxx in family(R, 'ndn.appv2.NDNApp._on_interest'):
+    for cxx in family(R, 'ndn.appv2.NDNApp._on_interest') + family(R, 'ndn.encoding.ndn_format_0_3.parse_interest'):
         for (e, d) in int_truthiness_uses(P, cxx):
+            if 'lifetime' not in d:
+                continue
             n_uses += 1
             R.fail('C04.NUL.1', f'{cxx.qual} :: {norm(e)[:80]}', cxx.qual, e, f'{d} is tested by truthiness: an InterestLifetime of 0 is '
                    'treated as absent and the default deadline is used', site(cxx, e))
